@@ -7,6 +7,8 @@ verus! {
 //@include shim/std_gaps.rs
 //@include shim/compact_encoding.rs
 //@include shim/flat_tree.rs
+//@include shim/crypto.rs
+pub use ed25519_dalek::{SigningKey, VerifyingKey, PUBLIC_KEY_LENGTH, SECRET_KEY_LENGTH};
 pub use compact_encoding::*;
 broadcast use vp_std::group_std_gaps, compact_encoding::lemma_enc_uint_len;
 /*@ default-first broadcast use compact_encoding::lemma_prefix_concat, compact_encoding::lemma_strict_prefix_concat, compact_encoding::lemma_pfx_len, compact_encoding::lemma_pfx_empty; @*/
@@ -16,16 +18,15 @@ broadcast use vp_std::group_std_gaps, compact_encoding::lemma_enc_uint_len;
 /*@ item dep:compact-encoding-2.2.0/src/lib.rs macro map_decode @*/
 
 //@include shim/node_codec.rs
-
 /*@ item src/common/mod.rs struct BitfieldUpdate @*/
-/*@ item src/oplog/entry.rs struct EntryTreeUpgrade @*/
+//@include shim/oplog_format.rs
 
 impl CompactEncoding for EntryTreeUpgrade {
     open spec fn spec_enc(&self) -> Seq<u8> { Self::dec_enc(*self) }
-    open spec fn dec_enc(d: Self) -> Seq<u8> { u64::dec_enc(d.fork) + u64::dec_enc(d.ancestors) + u64::dec_enc(d.length) + <Box<[u8]>>::dec_enc(d.signature) }
+    open spec fn dec_enc(d: Self) -> Seq<u8> { upgrade_enc(d) }
     open spec fn enc_ok(&self) -> bool { true }
     open spec fn dec_ok(d: Self) -> bool { true }
-    open spec fn eqv(a: Self, b: Self) -> bool { a.fork == b.fork && a.ancestors == b.ancestors && a.length == b.length && a.signature@ =~= b.signature@ }
+    open spec fn eqv(a: Self, b: Self) -> bool { upgrade_eqv(a, b) }
     /*@ fn src/oplog/entry.rs CompactEncoding for EntryTreeUpgrade::encoded_size ; novis
     tags: C01 C06 C02
     result: r
@@ -43,7 +44,7 @@ impl CompactEncoding for EntryTreeUpgrade {
 // drop flag is one byte (bit 0), then start and length varints
 impl CompactEncoding for BitfieldUpdate {
     open spec fn spec_enc(&self) -> Seq<u8> { Self::dec_enc(*self) }
-    open spec fn dec_enc(d: Self) -> Seq<u8> { seq![if d.drop { 1u8 } else { 0u8 }] + u64::dec_enc(d.start) + u64::dec_enc(d.length) }
+    open spec fn dec_enc(d: Self) -> Seq<u8> { bitfield_update_enc(d) }
     open spec fn enc_ok(&self) -> bool { true }
     open spec fn dec_ok(d: Self) -> bool { true }
     open spec fn eqv(a: Self, b: Self) -> bool { a == b }
@@ -73,12 +74,7 @@ impl CompactEncoding for BitfieldUpdate {
     @*/
 }
 
-/*@ item src/oplog/entry.rs struct Entry @*/
 
-pub open spec fn entry_flags(e: Entry) -> u8 {
-    (if e.user_data@.len() > 0 { 1u8 } else { 0u8 }) | (if e.tree_nodes@.len() > 0 { 2u8 } else { 0u8 })
-        | (if e.tree_upgrade is Some { 4u8 } else { 0u8 }) | (if e.bitfield is Some { 8u8 } else { 0u8 })
-}
 pub proof fn lemma_flag_bits(fa: u8, fb: u8, fc: u8, fd: u8)
     requires fa == 0 || fa == 1, fb == 0 || fb == 2, fc == 0 || fc == 4, fd == 0 || fd == 8
     ensures
@@ -91,24 +87,6 @@ pub proof fn lemma_flag_bits(fa: u8, fb: u8, fc: u8, fd: u8)
         && 0u8 | fa == fa) by (bit_vector)
         requires fa == 0 || fa == 1, fb == 0 || fb == 2, fc == 0 || fc == 4, fd == 0 || fd == 8;
 }
-pub open spec fn opt_seq(c: bool, s: Seq<u8>) -> Seq<u8> { if c { s } else { Seq::<u8>::empty() } }
-
-// section k of an entry (1 user data, 2 tree nodes, 3 tree upgrade, 4 bitfield): present flag, flag bit, bytes
-pub open spec fn entry_present(k: int, d: Entry) -> bool {
-    if k == 1 { d.user_data@.len() > 0 } else if k == 2 { d.tree_nodes@.len() > 0 } else if k == 3 { d.tree_upgrade is Some } else { d.bitfield is Some }
-}
-pub open spec fn entry_bit(k: int) -> u8 { if k == 1 { 1u8 } else if k == 2 { 2u8 } else if k == 3 { 4u8 } else { 8u8 } }
-pub open spec fn entry_sec(k: int, d: Entry) -> Seq<u8> {
-    if k == 1 { <Vec<String>>::dec_enc(d.user_data) } else if k == 2 { <Vec<Node>>::dec_enc(d.tree_nodes) }
-    else if k == 3 { EntryTreeUpgrade::dec_enc(d.tree_upgrade->Some_0) } else { BitfieldUpdate::dec_enc(d.bitfield->Some_0) }
-}
-pub open spec fn entry_tail(k: int, d: Entry) -> Seq<u8>
-    decreases 5 - k
-{
-    if k < 1 || k > 4 { Seq::<u8>::empty() } else { opt_seq(entry_present(k, d), entry_sec(k, d)) + entry_tail(k + 1, d) }
-}
-pub open spec fn entry_enc(d: Entry) -> Seq<u8> { seq![entry_flags(d)] + entry_tail(1, d) }
-
 /// candidate d is consistent with a decoder that has consumed the flags byte and sections < k, leaving r
 #[verifier::opaque]
 pub open spec fn entry_chain(k: int, d: Entry, buffer: Seq<u8>, flags: u8, r: Seq<u8>) -> bool {
@@ -199,17 +177,10 @@ pub proof fn lemma_schain_end(d: Entry, flags: u8, r: Seq<u8>)
 
 impl CompactEncoding for Entry {
     open spec fn spec_enc(&self) -> Seq<u8> { Self::dec_enc(*self) }
-    // flags byte (1 user data, 2 tree nodes, 4 tree upgrade, 8 bitfield), then the present sections in that order
     open spec fn dec_enc(d: Self) -> Seq<u8> { entry_enc(d) }
     open spec fn enc_ok(&self) -> bool { self.tree_nodes.enc_ok() }
     open spec fn dec_ok(d: Self) -> bool { <Vec<Node>>::dec_ok(d.tree_nodes) }
-    open spec fn eqv(a: Self, b: Self) -> bool {
-        &&& a.user_data@ =~= b.user_data@
-        &&& <Vec<Node>>::eqv(a.tree_nodes, b.tree_nodes)
-        &&& a.tree_upgrade is Some == b.tree_upgrade is Some
-        &&& (a.tree_upgrade is Some ==> EntryTreeUpgrade::eqv(a.tree_upgrade->Some_0, b.tree_upgrade->Some_0))
-        &&& a.bitfield == b.bitfield
-    }
+    open spec fn eqv(a: Self, b: Self) -> bool { entry_eqv(a, b) }
     /*@ fn src/oplog/entry.rs CompactEncoding for Entry::encoded_size ; novis
     tags: C01 C06 C02
     first:
@@ -338,6 +309,104 @@ impl CompactEncoding for Entry {
                 false by {
                 lemma_schain_step(4, d, flags, r3, r4);
                 lemma_schain_end(d, flags, r4);
+            }
+        }
+    @*/
+}
+
+// ======================= src/oplog/header.rs =======================
+impl CompactEncoding for HeaderTree {
+    open spec fn spec_enc(&self) -> Seq<u8> { Self::dec_enc(*self) }
+    open spec fn dec_enc(d: Self) -> Seq<u8> { header_tree_enc(d) }
+    open spec fn enc_ok(&self) -> bool { true }
+    open spec fn dec_ok(d: Self) -> bool { true }
+    open spec fn eqv(a: Self, b: Self) -> bool { header_tree_eqv(a, b) }
+    /*@ fn src/oplog/header.rs CompactEncoding for HeaderTree::encoded_size ; novis
+    tags: C01 C06 C02 C05
+    result: r
+    ensures:
+        r is Ok ==> r->Ok_0 <= 4 * SIZE_BOUND
+    @*/
+    /*@ fn src/oplog/header.rs CompactEncoding for HeaderTree::encode ; novis
+    tags: C01 C06 C02 C05
+    @*/
+    /*@ fn src/oplog/header.rs CompactEncoding for HeaderTree::decode ; novis
+    tags: C01 C06 C02 C05
+    @*/
+}
+impl CompactEncoding for HeaderHints {
+    open spec fn spec_enc(&self) -> Seq<u8> { Self::dec_enc(*self) }
+    open spec fn dec_enc(d: Self) -> Seq<u8> { header_hints_enc(d) }
+    open spec fn enc_ok(&self) -> bool { true }
+    open spec fn dec_ok(d: Self) -> bool { true }
+    open spec fn eqv(a: Self, b: Self) -> bool { header_hints_eqv(a, b) }
+    /*@ fn src/oplog/header.rs CompactEncoding for HeaderHints::encoded_size ; novis
+    tags: C01 C06 C02 C08
+    result: r
+    ensures:
+        r is Ok ==> r->Ok_0 <= 2 * SIZE_BOUND
+    @*/
+    /*@ fn src/oplog/header.rs CompactEncoding for HeaderHints::encode ; novis
+    tags: C01 C06 C02 C08
+    @*/
+    /*@ fn src/oplog/header.rs CompactEncoding for HeaderHints::decode ; novis
+    tags: C01 C06 C02 C08
+    @*/
+}
+
+// ASSUMED (not yet under contract): the CompactEncoding impls of /repo for PartialKeypair (src/oplog/header.rs)
+// and Manifest / ManifestSigner (src/encoding.rs).  Format from the property text / JS: public key as a
+// 32-byte buffer, then either the single byte 0 (no secret) or a 64-byte buffer secret ++ public.
+impl CompactEncoding for PartialKeypair {
+    open spec fn spec_enc(&self) -> Seq<u8> { Self::dec_enc(*self) }
+    open spec fn dec_enc(d: Self) -> Seq<u8> { enc_keypair(d) }
+    open spec fn enc_ok(&self) -> bool { true }
+    open spec fn dec_ok(d: Self) -> bool { true }
+    open spec fn eqv(a: Self, b: Self) -> bool { keypair_eqv(a, b) }
+    #[verifier::external_body] fn encoded_size(&self) -> (r: Result<usize, EncodingError>) ensures r is Ok ==> r->Ok_0 <= 99 { unimplemented!() }
+    #[verifier::external_body] fn encode<'a>(&self, buffer: &'a mut [u8]) -> (r: Result<&'a mut [u8], EncodingError>) { unimplemented!() }
+    #[verifier::external_body] fn decode(buffer: &[u8]) -> (r: Result<(Self, &[u8]), EncodingError>) { unimplemented!() }
+}
+impl CompactEncoding for Manifest {
+    open spec fn spec_enc(&self) -> Seq<u8> { Self::dec_enc(*self) }
+    open spec fn dec_enc(d: Self) -> Seq<u8> { enc_manifest(d) }
+    open spec fn enc_ok(&self) -> bool { true }
+    open spec fn dec_ok(d: Self) -> bool { true }
+    open spec fn eqv(a: Self, b: Self) -> bool { manifest_eqv(a, b) }
+    #[verifier::external_body] fn encoded_size(&self) -> (r: Result<usize, EncodingError>) ensures r is Ok ==> r->Ok_0 <= 68 { unimplemented!() }
+    #[verifier::external_body] fn encode<'a>(&self, buffer: &'a mut [u8]) -> (r: Result<&'a mut [u8], EncodingError>) { unimplemented!() }
+    #[verifier::external_body] fn decode(buffer: &[u8]) -> (r: Result<(Self, &[u8]), EncodingError>) { unimplemented!() }
+}
+
+impl CompactEncoding for Header {
+    open spec fn spec_enc(&self) -> Seq<u8> { Self::dec_enc(*self) }
+    open spec fn dec_enc(d: Self) -> Seq<u8> { header_enc(d) }
+    open spec fn enc_ok(&self) -> bool { true }
+    open spec fn dec_ok(d: Self) -> bool { true }
+    open spec fn eqv(a: Self, b: Self) -> bool { header_eqv(a, b) }
+    /*@ fn src/oplog/header.rs CompactEncoding for Header::encoded_size ; novis
+    tags: C01 C06 C02 C12
+    @*/
+    /*@ fn src/oplog/header.rs CompactEncoding for Header::encode ; novis
+    tags: C01 C06 C02 C12
+    first:
+        assert(2u8 | 4u8 == 6u8) by (bit_vector);
+    @*/
+    /*@ fn src/oplog/header.rs CompactEncoding for Header::decode ; novis
+    tags: C01 C06 C02 C12
+    after `let (key, rest) = take_array::<32>(rest)?;`:
+        let ghost r1 = rest@;
+        proof {
+            assert forall|d: Header| #[trigger] pfx(Self::dec_enc(d), buffer@) implies
+                key@ == d.key@ && pfx(header_fields(d), r1) by {
+                lemma_prefix_concat(seq![1u8, 6u8], d.key@ + header_fields(d), buffer@);
+                lemma_prefix_concat(d.key@, header_fields(d), buffer@.skip(2));
+                lemma_pfx_subrange(d.key@, buffer@.skip(2));
+            }
+            assert forall|d: Header| buffer@.len() < Self::dec_enc(d).len() && #[trigger] pfx(buffer@, Self::dec_enc(d)) implies
+                r1.len() < header_fields(d).len() && pfx(r1, header_fields(d)) by {
+                lemma_strict_prefix_concat(seq![1u8, 6u8], d.key@ + header_fields(d), buffer@);
+                lemma_strict_prefix_concat(d.key@, header_fields(d), buffer@.skip(2));
             }
         }
     @*/
